@@ -1,7 +1,10 @@
 package sim
 
 import (
+	"fmt"
 	"strings"
+	"sync/atomic"
+	"time"
 )
 
 // Sched is the baton-passing scheduler of multi-party worlds (DESIGN §3.3). Every party is
@@ -40,6 +43,10 @@ type Sched struct {
 
 	curLibSite int32
 	schedHash  uint64
+
+	tick       uint64 // progress counter (atomic): yields and party completions
+	Deadlocked bool
+	lastSite   []string
 }
 
 func NewSched(sc *Scenario, envs []*Env, st *Stats, maxYields uint64) *Sched {
@@ -63,6 +70,7 @@ func NewSched(sc *Scenario, envs []*Env, st *Stats, maxYields uint64) *Sched {
 		e.Task = i
 		s.wake = append(s.wake, make(chan struct{}, 1))
 		s.done = append(s.done, false)
+		s.lastSite = append(s.lastSite, "start")
 	}
 	return s
 }
@@ -102,7 +110,38 @@ func (s *Sched) Run(tasks []func(e *Env)) {
 	}
 	s.cur = 0
 	s.wake[0] <- struct{}{}
-	<-s.finished
+	// Wait for the parties. The running party can only stop making progress without yielding
+	// if it blocks on something real — typically a lock the library holds across a call-out
+	// into another party's seam (which is parked there). That is a finding, not a hang.
+	ticker := time.NewTicker(2 * time.Second)
+	defer ticker.Stop()
+	last, idle := atomic.LoadUint64(&s.tick), 0
+wait:
+	for {
+		select {
+		case <-s.finished:
+			break wait
+		case <-ticker.C:
+			cur := atomic.LoadUint64(&s.tick)
+			if cur != last {
+				last, idle = cur, 0
+				continue
+			}
+			idle++
+			if idle >= 10 {
+				s.Deadlocked = true
+				var parked []string
+				for i := range s.done {
+					if i != s.cur && !s.done[i] {
+						parked = append(parked, fmt.Sprintf("party %d parked at %s", i, s.lastSite[i]))
+					}
+				}
+				s.Viol = &Violation{Oracle: "party_blocked_across_callout", Step: -1, NoShrink: true,
+					Msg: fmt.Sprintf("party %d has made no progress and reached no yield point for 20 s while %s: it is blocked on something another party holds across a call-out to caller code (lock held while calling a Logger/Writer/Memory/callback)", s.cur, strings.Join(parked, ", "))}
+				break wait
+			}
+		}
+	}
 	s.Aborted = s.aborted
 	if s.stats != nil {
 		s.stats.Yields += s.yields
@@ -111,6 +150,7 @@ func (s *Sched) Run(tasks []func(e *Env)) {
 }
 
 func (s *Sched) finish(i int) {
+	atomic.AddUint64(&s.tick, 1)
 	s.done[i] = true
 	n := len(s.done)
 	for k := 1; k <= n; k++ {
@@ -135,6 +175,7 @@ func (s *Sched) runnableOther() []int {
 }
 
 func (s *Sched) yield(e *Env, site string, isBoost bool) {
+	atomic.AddUint64(&s.tick, 1)
 	s.yields++
 	if s.aborted {
 		panic(WatchdogAbort{s.yields})
@@ -186,6 +227,7 @@ func (s *Sched) yield(e *Env, site string, isBoost bool) {
 			s.Viol = v
 		}
 	}
+	s.lastSite[from] = site
 	s.cur = to
 	s.wake[to] <- struct{}{}
 	<-s.wake[from]
